@@ -1057,6 +1057,17 @@ def run_C14(ctx):
         for _ in range(int((n0 + 900) / max(1, cfg['chunk'] if k not in ('fastout', 'sincout', 'fftout') else cfg['chunk'] / ratio)) + 6):
             lines.append("PIB mask=- inlen=next outlen=max sig=imp:%d" % n0)
         cases.append(Case("imp_%04d_%s" % (i, k), lines, {'cfg': cfg, 'n0': n0, 'ratio': ratio}))
+    if not ctx.quick:
+        # very large FFT blocks (implementation only: the delay must still be fft_size_out / 2)
+        for j, (k, rin, rout, chunk) in enumerate([('fftinout', 44100, 48000, 16384), ('fftout', 96000, 44100, 8192), ('fftin', 48000, 48010, 9000),
+                                                   ('fftinout', 48000, 44100, 10000), ('fftin', 44100, 48000, 9000)]):
+            cfg = {'kind': k, 'rin': rin, 'rout': rout, 'chunk': chunk, 'sub': 1, 'nch': 1, 'ty': 'f64'}
+            ratio = rout / rin
+            n0 = 20000 + 137 * j
+            lines = ["T ty=f64", new_line(cfg)]
+            for _ in range(int((n0 + 60000) / (chunk if k != 'fftout' else chunk / ratio)) + 4):
+                lines.append("PIB mask=- inlen=next outlen=max sig=imp:%d" % n0)
+            cases.append(Case("imp_big_%d_%s" % (j, k), lines, {'cfg': cfg, 'n0': n0, 'ratio': ratio, 'no_model': True}))
 
     def judge(c):
         tr = c.trace
@@ -1070,6 +1081,11 @@ def run_C14(ctx):
             ys.extend(expand_samples(s.outs[0], 'f64')[:int(s.fields[1])])
         w = sum(abs(y) for y in ys)
         if w == 0:
+            if c.meta['cfg']['kind'].startswith('fast') and c.meta['ratio'] < 1.0:
+                # a polynomial resampler has no anti-aliasing filter: when it decimates, its instants can step over a
+                # one-sample impulse without touching it (ratio 1/2, cubic: every instant is an even integer). Not measurable.
+                c.meta['unmeasurable'] = True
+                return []
             return [fail(c, -1, "the impulse never appeared in the output")]
         # centre of the response: energy centroid (robust for symmetric kernels)
         cen = sum(j * y * y for j, y in enumerate(ys)) / sum(y * y for y in ys)
@@ -1417,6 +1433,18 @@ def run_C11(ctx):
 # ================================================================== C09
 HARD_FFT_PAIRS = [(96, 83), (83, 96), (50, 107), (149, 100), (167, 64), (64, 173), (179, 120), (120, 166), (249, 200), (107, 83), (83, 149)]
 COUNTED_OPS = ('PIB', 'SETRATIO', 'SETREL', 'SETCHUNK', 'RESET')
+
+
+PINNED_HASHES = {'windows_rs': 'e55e5fc09b4710ef3e62fea2b571dedf', 'sinc_rs': '18e3e78bb9f80e27247b3dbbc99c08a0',
+                 'interpolation_rs': '4d7e253a90c7263f50b19e37a69a79fe', 'fft_core': 'b42bed0dd611432617a6cd35a406882c'}
+
+
+def gen_pinned(rep, names):
+    got = rep.get('pinned_regions', {})
+    bad = [n for n in names if got.get(n) != PINNED_HASHES[n]]
+    if bad:
+        return False, "hand-modelled source regions changed: " + ", ".join("%s (%s, pinned %s)" % (n, got.get(n), PINNED_HASHES[n]) for n in bad)
+    return True, "source regions unchanged: " + ", ".join(names)
 
 
 def gen_no_alloc(rep):
@@ -1881,6 +1909,336 @@ def run_C05(ctx):
     return res
 
 
+# ================================================================== C01 / C02 (tone probes)
+import spectral
+from spectral import WINDOWS, LEAK_DB, REJ_DB, AMP_TOL, cutoff_py, interp_bound
+
+
+def fft_sizes(cfg):
+    g = math.gcd(cfg['rin'], cfg['rout']); mi, mo = cfg['rin'] // g, cfg['rout'] // g
+    k = cfg['kind']
+    if k == 'fftinout':
+        m = math.ceil(cfg['chunk'] / mi)
+    elif k == 'fftin':
+        m = math.ceil(max(1, cfg['chunk'] // cfg['sub']) / mi)
+    else:
+        m = math.ceil(max(1, cfg['chunk'] // cfg['sub']) / mo)
+    return m * mi, m * mo
+
+
+def sinc_probe_cfg(r, quick, model):
+    w = r.below(6)
+    L = r.choice([64, 64, 128] if (quick or model) else [64, 128, 256, 512])
+    if model:
+        L = 64
+    itype = r.below(4)
+    factor = r.choice([2, 4, 16, 64, 128, 256, 1024, 2048]) if itype < 2 else r.choice([1, 4, 16, 128, 256, 2048])
+    ratio = pick_ratio(r) if not model else pick_ratio(r, 0.4, 3.0)
+    cfg = {'kind': r.choice(['sincin', 'sincout']), 'ty': r.choice(['f64', 'f64', 'f32']), 'ratio': ratio, 'maxrel': 1.0, 'nch': 1,
+           'itype': itype, 'slen': L, 'L': L, 'factor': factor, 'window': w, 'interp': 'default',   # the public constructor: make_interpolator scales the cutoff
+           'chunk': r.choice([1, 7, 64, 256, 1000, 1024]) if not model else r.choice([16, 64, 100])}
+    return cfg
+
+
+FFT_PAIRS = [(44100, 48000), (48000, 44100), (48000, 16000), (16000, 48000), (8000, 11025), (22050, 16000), (3, 7), (7, 3),
+             (147, 160), (2, 1), (1, 2), (48000, 96000), (96000, 44100), (5, 4)]
+
+
+def fft_probe_cfg(r, quick, model):
+    rin, rout = r.choice(FFT_PAIRS)
+    cfg = {'kind': r.choice(['fftin', 'fftout', 'fftinout']), 'rin': rin, 'rout': rout,
+           'chunk': r.choice([256, 512, 1024, 2000]) if not model else r.choice([64, 128]), 'sub': r.choice([1, 2]), 'nch': 1,
+           'ty': r.choice(['f64', 'f64', 'f32'])}
+    if model:
+        cfg['rin'], cfg['rout'] = r.choice([(3, 7), (7, 3), (2, 1), (1, 2), (5, 4)])
+    return cfg
+
+
+def delay_consistency(c, a):
+    """all components share one constant delay (linear phase): returns the largest disagreement in input samples, or None"""
+    tones, comps, ratio = c.meta['tones'], a['comps'], c.meta['ratio']
+    if len(tones) < 2:
+        return None
+    ds = []
+    for (f, ph, am), (amp, pho) in zip(tones, comps):
+        d = (ph + 2 * math.pi * f / ratio - pho)          # = 2 pi f D (mod 2 pi)
+        ds.append((f, d))
+    ds.sort()
+    f0, d0 = ds[0]
+    D0 = ((d0 + math.pi) % (2 * math.pi) - math.pi) / (2 * math.pi * f0)
+    worst = 0.0
+    for f, d in ds[1:]:
+        x = d - 2 * math.pi * f * D0
+        x = (x + math.pi) % (2 * math.pi) - math.pi
+        worst = max(worst, abs(x) / (2 * math.pi * f))
+    return worst, D0
+
+
+def cutoff_cases():
+    lines = ["T ty=f64"] + ["INFO f=cutoff n=%d window=%d" % (n, w) for n in (32, 64, 100, 128, 256, 512, 1000, 2048) for w in range(6)]
+    return Case("cutoff_values", lines, {'component': 'calculate_cutoff', 'no_model': True})
+
+
+def judge_cutoff(c):
+    out = []
+    vals = [l.split(' ') for l in open(c.impl_path) if l.startswith('CUTOFF ')]
+    k = 0
+    for n in (32, 64, 100, 128, 256, 512, 1000, 2048):
+        for w in range(6):
+            if k >= len(vals):
+                return [fail(c, -1, "calculate_cutoff values missing")]
+            v = hexf64(vals[k][1]); k += 1
+            exp = cutoff_py(n, WINDOWS[w])
+            if not abs(v - exp) <= 1e-12:
+                out.append(fail(c, -1, "calculate_cutoff(%d, %s) = %.15g, the fitted formula gives %.15g" % (n, WINDOWS[w], v, exp)))
+                return out
+    return out
+
+
+def nearest_fn_cases(r, n):
+    """get_nearest_time(s): model against implementation on boundary-heavy inputs"""
+    lines = ["T ty=f64"]
+    for _ in range(n):
+        factor = r.choice([1, 2, 3, 4, 8, 16, 128, 256, 2048])
+        base = r.below(2000) - 1000
+        kind = r.below(4)
+        if kind == 0:
+            t = base + r.below(factor + 1) / factor
+        elif kind == 1:
+            t = base + (r.below(2 * factor + 1) / (2 * factor))
+        elif kind == 2:
+            t = nextafter(base + r.below(factor + 1) / factor, r.choice([-1e9, 1e9]))
+        else:
+            t = base + r.uniform()
+        for nn in (1, 2, 3, 4):
+            lines.append("FN f=nearest n=%d t=%s factor=%d" % (nn, f64hex(t), factor))
+    return Case("nearest_fn", lines, {'component': 'get_nearest_times'})
+
+
+def run_C01(ctx):
+    rng, tier = ctx.rng, ctx.tier
+    res = new_results("tone probes on SincFixedIn/Out (six windows, sinc_len 64..512, four interpolation types, oversampling 1..2048, ratios in [1/16,16], "
+                      "any chunk size, f32/f64) and FftFixedIn/Out/InOut: sums of sinusoids below the passband edge f_cutoff*min(1,ratio) - (1 - "
+                      "calculate_cutoff(len, window)); least-squares fit of the expected components at f/ratio on the steady-state output: amplitude "
+                      "within 1% / 0.1% (+ threshold), residual below max(window leakage, 2 x textbook interpolation bound) (f32: >= 64 eps), all "
+                      "components share one delay (two-tone probes); get_nearest_time(s) and the probes with sinc_len 64 / small FFTs also run on the model",
+                      ['SincFixedIn', 'SincFixedOut', 'FftFixedIn', 'FftFixedOut', 'FftFixedInOut', 'get_nearest_times', 'calculate_cutoff'])
+    cases = [cutoff_cases(), nearest_fn_cases(rng.fork('near'), 300 if ctx.quick else 3000)]
+    n = 40 if ctx.quick else 400
+    rl = getattr(ctx, 'replay_lines', None)
+    if rl:
+        n = 0
+        cases = [replay_probe(rl)]
+    for i in range(n):
+        r = rng.fork("c01_%d" % i)
+        model = (i % 5 == 0)
+        if i % 4 != 3:
+            cfg = sinc_probe_cfg(r, ctx.quick, model)
+            wname = WINDOWS[cfg['window']]
+            cc = cutoff_py(cfg['L'], wname)
+            fc = r.choice([cc, 0.95, 0.9, 0.8])
+            cfg['fcut'] = f32round(fc)
+            pedge = cfg['fcut'] * min(1.0, cfg['ratio']) - (1 - cc)
+            span = cfg['L']
+            fam = wname
+        else:
+            cfg = fft_probe_cfg(r, ctx.quick, model)
+            fin, fout = fft_sizes(cfg)
+            cut = cutoff_py(fout, 'BlackmanHarris2') * fout / fin if fin > fout else cutoff_py(fin, 'BlackmanHarris2')
+            pedge = cut - (1 - cutoff_py(fin, 'BlackmanHarris2'))
+            span = 2 * fin
+            fam = 'FFT'
+        if pedge <= 0.02:
+            continue
+        ratio = cfg['ratio'] if cfg['kind'] in gens.ASYNC else cfg['rout'] / cfg['rin']
+        ntone = r.choice([1, 2, 2, 3])
+        fl = 0.02 * pedge if fam != 'FFT' else min(0.02 * pedge, 1.0 / (4 * span))
+        tones = [(r.uniform(0.02 if k else 0.0, 1.0) * pedge / 2 if k else max(fl, r.uniform(0.0, 0.05) * pedge) / 2, r.uniform(0, 6.28), r.choice([1.0, 0.5, 0.25]) if k else 1.0)
+                 for k in range(ntone)]
+        if fam == 'FFT' and ntone > 1:
+            tones[0] = (min(tones[0][0], 1.0 / (4.2 * span)), tones[0][1], 1.0)
+        n_in = int(3 * span + (700 if model else 2500) / min(1.0, ratio) ** 0.5)
+        c = spectral.probe_case("tone_%04d_%s" % (i, cfg['kind']), cfg, tones, n_in, model and ctx.with_model)
+        c.meta.update(fam=fam, pedge=pedge, mode='pass', fft_in=(span // 2 if fam == 'FFT' else 0))
+        cases.append(spectral.stamp(c))
+
+    def judge(c):
+        if c.meta.get('component') == 'calculate_cutoff':
+            return judge_cutoff(c)
+        if c.meta.get('mode') != 'pass':
+            return []
+        a = spectral.analyse(c)
+        cfg = c.meta['cfg']
+        if a.get('fatal'):
+            return [fail(c, -1, "fatal outcome in a constant-ratio stream")]
+        if 'comps' not in a:
+            return [fail(c, -1, "the output stream is too short to analyse (%s)" % a)]
+        fam = c.meta['fam']
+        tones = c.meta['tones']
+        fmax = max(f for f, _, _ in tones) * 2
+        bound = interp_bound(cfg['itype'], cfg['factor'], fmax) if fam != 'FFT' else 0.0
+        thr = max(10 ** (-LEAK_DB[fam] / 20), 2 * bound)
+        if cfg['ty'] == 'f32':
+            thr = max(thr, 64 * spectral.EPS32)
+        Asum = sum(t[2] for t in tones)
+        out = []
+        for (f, ph, am), (amp, pho) in zip(tones, a['comps']):
+            if not abs(amp / am - 1) <= AMP_TOL[fam] + thr * Asum / am:
+                out.append(fail(c, -1, "tone at %.4f of the input Nyquist (passband edge %.4f): amplitude %.6f of %.6f (allowed deviation %.2g)"
+                                % (2 * f, c.meta['pedge'], amp, am, AMP_TOL[fam] + thr * Asum / am)))
+                return out
+        spur = a['res_rms'] * math.sqrt(2) / Asum
+        c.meta['margin_db'] = 20 * math.log10(thr / max(spur, 1e-300))
+        if not spur <= thr:
+            out.append(fail(c, -1, "spurious content %.1f dB below the signal, required %.1f dB (%s, interpolation bound %.2e)"
+                            % (-20 * math.log10(max(spur, 1e-300)), -20 * math.log10(thr), fam, bound)))
+            return out
+        dc = delay_consistency(c, a)
+        if dc is not None:
+            worst, D0 = dc
+            tol_d = 0.02 + (thr * 4) / (2 * math.pi * min(f for f, _, _ in tones[1:]) * min(t[2] for t in tones) / Asum)
+            if not worst <= tol_d:
+                out.append(fail(c, -1, "components are delayed differently: %.4f input samples apart (common delay %.3f, allowed %.3g)" % (worst, D0, tol_d)))
+        return out
+
+    execute(ctx, cases, res, judge, timeout=600)
+    res['dist'].update(collections.Counter("%s:%s" % (c.meta.get('fam', c.meta.get('component', '?')), c.meta['cfg']['kind'] if 'cfg' in c.meta else '-') for c in cases))
+    margins = sorted(c.meta['margin_db'] for c in cases if 'margin_db' in c.meta)
+    if margins:
+        res['dist']['smallest_spur_margin_db_x10'] = int(margins[0] * 10)
+    return res
+
+
+def replay_probe(rl):
+    """a stored probe: the tones and the mode are recorded in comment lines"""
+    meta = {}
+    for l in rl:
+        if l.startswith('#meta '):
+            meta = json.loads(l[6:])
+    lines = [l for l in rl if not l.startswith('#')]
+    c = Case("replay", lines, meta)
+    c.meta['no_model'] = True
+    c.meta['tones'] = [tuple(t) for t in meta.get('tones', [])]
+    return c
+
+
+def run_C02(ctx):
+    rng, tier = ctx.rng, ctx.tier
+    res = new_results("stopband probes: (a) SincFixedIn/Out with a tone between the stopband edge f_cutoff*min(1,ratio) + (1 - calculate_cutoff(len, "
+                      "window)) and the input Nyquist: everything in the steady-state output at least the window's rejection below the tone "
+                      "(41/58/72/99/105/138 dB; f32: >= 64 eps); (b) upsampling with a tone in the transition band: after removing the legitimate "
+                      "component at f/ratio the images are below the same level; (c) f_cutoff = calculate_cutoff, ratio >= 1: tone at f_cutoff comes "
+                      "out at -6 dB +- 1 dB; (d) FFT resamplers: tones above min(fs_in, fs_out)/2 more than 100 dB down; oversampling >= 256 with cubic "
+                      "interpolation so that the interpolation error is negligible; calculate_cutoff compared with its fitted formula",
+                      ['SincFixedIn', 'SincFixedOut', 'FftFixedIn', 'FftFixedOut', 'FftFixedInOut', 'calculate_cutoff'])
+    cases = [cutoff_cases()]
+    n = 40 if ctx.quick else 400
+    rl = getattr(ctx, 'replay_lines', None)
+    if rl:
+        n = 0
+        cases = [replay_probe(rl)]
+    for i in range(n):
+        r = rng.fork("c02_%d" % i)
+        model = (i % 8 == 0)
+        mode = ['stop', 'image', 'six', 'fftstop'][i % 4]
+        if mode != 'fftstop':
+            cfg = sinc_probe_cfg(r, ctx.quick, model)
+            cfg['itype'] = 0
+            cfg['factor'] = r.choice([256, 512, 1024])
+            wname = WINDOWS[cfg['window']]
+            cc = cutoff_py(cfg['L'], wname)
+            fam = wname
+            if mode == 'stop':
+                cfg['ratio'] = pick_ratio(r, 1 / 16, 0.9) if r.chance(0.8) else pick_ratio(r, 1.0, 4.0)
+                fc = r.choice([cc, 0.95, 0.9, 0.8, 0.5])
+                cfg['fcut'] = f32round(fc)
+                sedge = cfg['fcut'] * min(1.0, cfg['ratio']) + (1 - cc)
+                if sedge >= 0.995:
+                    continue
+                tones = [(r.uniform(sedge, 0.999) / 2, r.uniform(0, 6.28), 1.0)]
+            elif mode == 'image':
+                cfg['ratio'] = pick_ratio(r, 1.05, 16.0)
+                fc = r.choice([cc, cc, 0.9, 0.8])
+                cfg['fcut'] = f32round(fc)
+                sedge = cfg['fcut'] + (1 - cc)
+                pedge = cfg['fcut'] - (1 - cc)
+                hi = min(0.999, 2 - sedge)
+                if hi <= 0.05:
+                    continue
+                lo = max(0.05, min(pedge, hi - 0.01))
+                tones = [(r.uniform(lo, hi) / 2, r.uniform(0, 6.28), 1.0)]
+            else:
+                cfg['ratio'] = pick_ratio(r, 1.0, 16.0)
+                cfg['fcut'] = f32round(cc)
+                tones = [(cfg['fcut'] / 2, r.uniform(0, 6.28), 1.0)]
+            ratio = cfg['ratio']
+            span = cfg['L']
+        else:
+            cfg = fft_probe_cfg(r, ctx.quick, model)
+            while cfg['rout'] >= cfg['rin']:
+                cfg['rin'], cfg['rout'] = r.choice([p for p in FFT_PAIRS if p[1] < p[0]]) if not model else r.choice([(7, 3), (2, 1), (5, 4)])
+            fin, fout = fft_sizes(cfg)
+            ratio = cfg['rout'] / cfg['rin']
+            fam = 'FFT'
+            span = 2 * fin
+            if ratio * 1.0005 >= 0.999:
+                continue
+            tones = [(r.uniform(ratio * 1.0005, 0.999) / 2, r.uniform(0, 6.28), 1.0)]
+        n_in = int(3 * span + (700 if model else 2500) / min(1.0, ratio) ** 0.5)
+        c = spectral.probe_case("stop_%04d_%s_%s" % (i, mode, cfg['kind']), cfg, tones, n_in, model and ctx.with_model)
+        c.meta.update(fam=fam, mode=mode, fft_in=(span // 2 if fam == 'FFT' else 0))
+        cases.append(spectral.stamp(c))
+
+    def judge(c):
+        if c.meta.get('component') == 'calculate_cutoff':
+            return judge_cutoff(c)
+        mode = c.meta.get('mode')
+        cfg = c.meta['cfg']
+        fam = c.meta['fam']
+        tones = c.meta['tones']
+        thr = 10 ** (-REJ_DB[fam] / 20)
+        if cfg['ty'] == 'f32':
+            thr = max(thr, 64 * spectral.EPS32)
+        f = tones[0][0]
+        if mode in ('stop', 'fftstop'):
+            a = spectral.analyse(c, expect_freqs=[])
+        else:
+            a = spectral.analyse(c)
+        if a.get('fatal'):
+            return [fail(c, -1, "fatal outcome in a constant-ratio stream")]
+        if 'out_rms' not in a:
+            return [fail(c, -1, "the output stream is too short to analyse (%s)" % a)]
+        if mode in ('stop', 'fftstop'):
+            lvl = a['out_rms'] * math.sqrt(2)
+            c.meta['margin_db'] = 20 * math.log10(thr / max(lvl, 1e-300))
+            if not lvl <= thr:
+                return [fail(c, -1, "tone at %.4f of the input Nyquist (beyond the stopband edge) comes out only %.1f dB down, required %.1f dB (%s)"
+                             % (2 * f, -20 * math.log10(max(lvl, 1e-300)), -20 * math.log10(thr), fam))]
+        elif mode == 'image':
+            lvl = a['res_rms'] * math.sqrt(2)
+            c.meta['margin_db'] = 20 * math.log10(thr / max(lvl, 1e-300))
+            if not lvl <= thr:
+                return [fail(c, -1, "upsampling by %.3f, tone at %.4f of the input Nyquist: images only %.1f dB down, required %.1f dB (%s)"
+                             % (cfg['ratio'], 2 * f, -20 * math.log10(max(lvl, 1e-300)), -20 * math.log10(thr), fam))]
+        elif mode == 'six':
+            amp = a['comps'][0][0]
+            db = 20 * math.log10(max(amp, 1e-300))
+            c.meta['six_db'] = db
+            if not -7.0 <= db <= -5.0:
+                return [fail(c, -1, "f_cutoff = calculate_cutoff, ratio %.3f: a tone at f_cutoff comes out at %.2f dB, expected -6 dB +- 1" % (cfg['ratio'], db))]
+        return []
+
+    execute(ctx, cases, res, judge, timeout=600)
+    res['dist'].update(collections.Counter("%s:%s" % (c.meta.get('mode', c.meta.get('component', '?')), c.meta['cfg']['kind'] if 'cfg' in c.meta else '-') for c in cases))
+    margins = sorted(c.meta['margin_db'] for c in cases if 'margin_db' in c.meta)
+    if margins:
+        res['dist']['smallest_rejection_margin_db_x10'] = int(margins[0] * 10)
+    six = sorted(c.meta['six_db'] for c in cases if 'six_db' in c.meta)
+    if six:
+        res['dist']['six_db_range_x100'] = [int(six[0] * 100), int(six[-1] * 100)]
+    return res
+
+
 def witness_fails(pid, c):
     """does the stored witness of a known finding still fail on this tree?"""
     tr = c.trace
@@ -1988,7 +2346,8 @@ PROPS = {
     'C14': {
         'run': run_C14,
         'pinned': ['C14_fast_initial_position_R', 'C14_fast_instant_R', 'C14_fast_true_delay_R', 'C14_fast_in_delay_R',
-                   'C14_fast_out_delay_R', 'C14_fft_reported_Z', 'C14_sinc_reported_R'],
+                   'C14_fast_out_delay_R', 'C14_fft_reported_Z', 'C14_sinc_reported_R', 'C14_fft_core_pinned'],
+        'gen_obligations': {'pinned-source-regions': lambda rep: gen_pinned(rep, ['fft_core'])},
         'unproved': ['FFT types: that the spectral path is a linear-phase convolution centred at fft_size_in/2 (oracle)',
                      'sinc types: reported sinc_len*ratio/2 is NOT the alignment of the stream (known finding sinc-output-delay)'],
         'assumptions': ['ideal arithmetic'],
@@ -2072,5 +2431,34 @@ PROPS = {
         'assumptions': ['ideal arithmetic for the theorems; masks: calls without a mask (C11 gives the per-channel independence)',
                         'the input signal of the compared runs is one function of the absolute stream position (harness generator)'],
         'trusted_base': ['Reals axioms (lra/nra/field), Flocq Zfloor/Zceil lemmas'],
+    },
+    'C01': {
+        'run': run_C01,
+        'replay_aware': True,
+        'pinned': ['C01_nearest_accurate_R', 'C01_cell_R', 'C01_nodes_cubic_R', 'C01_nodes_quadratic_R', 'C01_nodes_linear_R', 'C01_offset_R',
+                   'C01_blend_cubic_R', 'C01_blend_quadratic_R', 'C01_blend_linear_R', 'C01_branch_is_fir_R', 'C01_source_regions'],
+        'gen_obligations': {'pinned-source-regions': lambda rep: gen_pinned(rep, ['interpolation_rs', 'sinc_rs', 'windows_rs', 'fft_core'])},
+        'unproved': ['PARTIAL: the frequency response of the windowed-sinc branches and of the FFT filter (amplitude within 1 % / 0.1 %, leakage 80..150 dB) is '
+                     'not a theorem: transcendental window functions over a continuum of lengths, cutoffs and frequencies; measured by tone probes on every run',
+                     'the textbook interpolation error bound itself (a statement about derivatives of a band-limited function) is not formalised; what is proved is '
+                     'its premise: the blend is the Lagrange polynomial on the right grid points at the right abscissa',
+                     'make_sincs / make_window / the FFT core are modelled by hand and pinned by a hash of their source text',
+                     'f32: the probes run both sample types; no rounding analysis'],
+        'assumptions': ['ideal arithmetic for the theorems',
+                        'tone probes use the public constructors (make_interpolator scales the cutoff); thresholds are those of the property statement'],
+        'trusted_base': ['Reals axioms (lra/field), Flocq Zfloor/Znearest lemmas', 'tools/spectral.py (least-squares tone fit) for the measured part'],
+    },
+    'C02': {
+        'run': run_C02,
+        'replay_aware': True,
+        'pinned': ['C02_cutoff_scaling_R', 'C02_cutoff_scaling_B', 'C02_source_regions'],
+        'gen_obligations': {'pinned-source-regions': lambda rep: gen_pinned(rep, ['windows_rs', 'sinc_rs', 'fft_core'])},
+        'unproved': ['PARTIAL: the stopband attenuation figures (41..138 dB per window, 100 dB for the FFT resamplers) and the -6 dB point are not theorems: '
+                     'they are properties of transcendental window functions; measured by stopband / image / -6 dB probes on every run',
+                     'calculate_cutoff: its values are compared with the fitted formula of the property (k1,k2,k3 per window) on every run, the "stopband starts at '
+                     'Nyquist" consequence is measured',
+                     'windows.rs, sinc.rs and the FftResampler core are pinned by hash, not translated'],
+        'assumptions': ['binary32 product / binary64 comparison for the cutoff scaling (Flocq semantics)'],
+        'trusted_base': ['Reals axioms for the R statement; the B statement is closed under the global context', 'tools/spectral.py for the measured part'],
     },
 }
